@@ -2,6 +2,7 @@ import Batteries.Tactic.Alias
 import GenlmModel.Proofs.MinDet
 import GenlmModel.Proofs.Wfsa2
 import GenlmModel.Proofs.Det
+import GenlmModel.Proofs.LimWfsa
 /-! # C13 — pushing and trimming preserve the language (determinisation: decided per output) -/
 namespace Genlm.Props.C13
 /-- pushing preserves every string weight when states of zero backward weight accept nothing -/
@@ -27,4 +28,6 @@ alias determinize_no_zero_division_of_positive := Genlm.det_no_zeroDiv_of_pos
 alias min_det_preserves := Genlm.minDet_preserves
 alias min_det_deterministic := Genlm.minDet_result_deterministic
 alias min_det_with_push_preserves := Genlm.minDet_push_preserves_of_coacc
+
+alias trim_preserves_limit := Genlm.trim_PL
 end Genlm.Props.C13
